@@ -543,14 +543,27 @@ def sharded(ctx, reqs, meta):
                 except Exception as exc:  # noqa
                     closed = False
                     surfaced.append("close:" + type(exc).__name__)
+                if not closed and not surfaced:
+                    # the caller removes the cause and closes AGAIN: a normal return now claims that everything accepted
+                    # so far is on disk (a failed close must not be forgotten); a second failure of any kind is loud enough
+                    try:
+                        acc.close()
+                        closed = True
+                        retried.append(True)
+                    except Exception:  # noqa
+                        pass
                 return ok, closed, surfaced
             for k in sites:
                 prim = trace[k][0]
                 err = ERRS[(k + 1) % len(ERRS)]
                 desc = {"accessor": "sharded-file", "sharding": spec, "strategy": strategy, "call": k, "primitive": prim,
                         "path": trace[k][1], "errno": errno.errorcode[err], "caller": "continues after the failure, then closes"}
+                retried = []
                 with Injector(tmp, "fault", k, err) as inj:
                     ok, closed, surfaced = resilient(tmp)
+                if retried:
+                    ctx.bump("second_close_returned_normally")
+                    desc["caller"] = "continues after the failure; the first close() fails, the second returns normally"
                 ctx.case(("shard-fault-continue", k, err, json.dumps(spec), strategy))
                 if inj.fired:
                     ctx.hist("continued_session", ("closed" if closed else "close failed") + f" {len(ok)}/{len(order)} stored")
